@@ -258,5 +258,5 @@ func TestC01(t *testing.T) {
 		}
 		return f
 	}
-	core.Rapid(r, "forest", r.Pick(1200, 40000), gen, wrap)
+	core.Rapid(r, "forest", r.Pick(1200, 80000), gen, wrap)
 }
